@@ -22,6 +22,16 @@ import (
 // files: their number, request vs response records, and every acknowledged exchange's response record.
 //
 // Input: as driver "pipe" plus stop=<point>:<k> | stop=paused:<delay ms> with pause=<point>:<k> | (none = quiescence)
+//        outage=<N> onehost=1 stopbound=<ms>: every row on host A, which answers 503 to its first N requests; Stop() has <ms> to return
+
+// limiterStopBoundMs: how long controler.Stop() may take when archiver workers wait for rate-limiter tokens of a host that
+// answered 5xx, from the code's own constants (theorem C03_limiter_wait_bounded_usual): the longest penalty, 30 s, + one token
+// per waiting goroutine (at most w * mca at a time) at the floor rate, 2 s each, + 2 s for each 5xx answer still to come (it
+// voids the token that was accruing; at most the N of the outage) + the retry sleeps of the fetches in progress (2 s * i before
+// attempt i+1) + 30 s for everything else the stop sequence does, on a loaded machine
+func limiterStopBoundMs(w, mca, outage, retry int) int {
+	return 30000 + 2000*(w*mca+outage) + 1000*retry*(retry+1) + 30000
+}
 
 func abstractStopState(evs []pevent) (busy [4]int, stopSeen bool) {
 	// a worker of stage s holds a seed from "<s>.in" until the next event of that seed at a later stage
@@ -127,6 +137,9 @@ func execStop(input string) Result {
 	// Stop() waits for fetches in progress; with the rate limiter on a worker can sit out a 403/429 penalty
 	// (5 s doubling, capped at 30 s) before its fetch even starts: "bounded" is then tens of seconds
 	sp.TimeoutMs = 90000
+	if sp.StopBoundMs > 0 { // the run's own budget must not end before the bound on Stop() does
+		sp.TimeoutMs = max(sp.TimeoutMs, 45000+sp.StopBoundMs)
+	}
 	if sp.MaxHops > 0 && sp.StopAt == nil {
 		// with outlinks the crawl does not end by itself within the budget: stop it somewhere
 		sp.StopAt = &Trigger{"fin.notified", 2}
@@ -139,7 +152,7 @@ func execStop(input string) Result {
 	if sp.StopSignal != "" && res != nil && res.StopCalled {
 		// the signal handler stops the pipeline and exits 0 itself: "returned" = the process ended by itself with exit
 		// code 0 (a process killed by the signal, or a non-zero exit, shows up in status)
-		returned = status == ""
+		returned = status == "" && !res.TimedOut // (TimedOut is only ever written by a child that WatchSignals did not end: its Stop() hangs)
 		crashed = status != "" && !strings.HasPrefix(status, "watchdog")
 	}
 	paused := res != nil && res.PausedAtStop
@@ -173,11 +186,28 @@ func execStop(input string) Result {
 	if res != nil && !res.StopCalled {
 		tags = append(tags, "stop-never-called")
 	}
+	if sp.Outage5xx > 0 {
+		// the limiter dimension: consecutive 5xx answers of the host before the stop request, and whether a URL of that host
+		// was still to be fetched (waiting for its token) when the request came
+		n5 := 0
+		for _, e := range evs {
+			if e.kind == "stop.call" {
+				break
+			}
+			if e.kind == "origin" && len(e.fields) >= 2 && e.fields[1] == "503" {
+				n5++
+			}
+		}
+		tags = append(tags, fmt.Sprintf("outage-5xx-before-stop:%d", n5), fmt.Sprintf("fetch-after-outage-stop:%v", after > 0))
+		if res != nil && res.StopOverdue {
+			note(fmt.Sprintf("stop case [%s]: controler.Stop() had not returned %d ms after the stop request (%d answers 503 of the host before it, rate limiter on: a worker waits for the host's token)", input, sp.StopBoundMs, n5))
+		}
+	}
 	return Result{Term: term, Tags: tags, Nontrivial: res != nil && res.StopCalled && sc.Records > 0}
 }
 
 var stopMoments = []string{"", "lq.inserted", "pre.in", "pre.done", "arch.in", "arch.fetch", "arch.written", "arch.done", "post.in", "post.done",
-	"fin.in", "fin.feedback", "fin.finished", "fin.notified", "lq.deleted", "paused", "paused", "paused", "diskpaused", "stalled", "fin.produce", "fin.produce", "backoff", "backoff"}
+	"fin.in", "fin.feedback", "fin.finished", "fin.notified", "lq.deleted", "paused", "paused", "paused", "diskpaused", "stalled", "fin.produce", "fin.produce", "backoff", "backoff", "limiterwait"}
 
 func genStop(r *Rng, i int, tier string) string {
 	w := []int{1, 2, 2, 3, 4}[r.Intn(5)]
@@ -242,6 +272,8 @@ func genStop(r *Rng, i int, tier string) string {
 		// (first attempts of half the resources die without an answer, a later one succeeds)
 		s = strings.Replace(strings.Replace(s, " retry=0 ", " retry=2 ", 1), " retry=1 ", " retry=2 ", 1)
 		s += fmt.Sprintf(" mode=flaky stop=arch.fetch:%d", 1+r.Intn(5))
+	case "limiterwait":
+		return genStopLimiterWait(r)
 	case "fin.produce":
 		// in the middle of a burst of outlinks travelling postprocessor -> finisher -> queue (link-rich pages, few workers)
 		if !strings.Contains(s, "maxhops=1") {
@@ -260,6 +292,29 @@ func genStop(r *Rng, i int, tier string) string {
 		s += fmt.Sprintf(" stop=%s:%d", m, 1+r.Intn(4))
 	}
 	return s
+}
+
+// genStopLimiterWait: rate limiter ON, every row on one host that is down at first: it answers 503 to the whole first wave of
+// fetches and their retries (N >= 5 consecutive 5xx, nothing in between), the other rows of the host queue up behind its
+// token bucket, and the stop request comes when the next row reaches an archiver worker - which then waits for the host's
+// token inside archive() while archiver.Stop() waits for the worker.  Stop() must return within limiterStopBoundMs.
+func genStopLimiterWait(r *Rng) string {
+	c := [][2]int{{2, 2}, {3, 1}, {3, 2}, {2, 2}}[r.Intn(4)] // workers, max-retry: the first wave makes w*(retry+1) >= 6 requests
+	w, retry := c[0], c[1]
+	mca := 1 + r.Intn(2)
+	outage := w*(retry+1) + r.Intn(3)
+	s := fmt.Sprintf("site=%d w=%d mca=%d sched=%d seeds=%d mr=%d retry=%d pool=%d rl=1 onehost=1 outage=%d", r.U64()%1000000, w, mca, r.U64()%1000,
+		w+2+r.Intn(2), 1+r.Intn(3), retry, 1+r.Intn(2), outage)
+	if r.Chance(30) {
+		s += " async=1"
+	}
+	if r.Chance(20) {
+		s += " proxy=1"
+	}
+	if r.Chance(25) {
+		s += " sig=TERM"
+	}
+	return s + fmt.Sprintf(" stop=arch.in:%d stopbound=%d", w+1+r.Intn(2), limiterStopBoundMs(w, mca, outage, retry))
 }
 
 func init() {
